@@ -761,6 +761,41 @@ def validate_views():
     return out
 
 
+def _tree_digest():
+    import hashlib
+    h = hashlib.sha256()
+    root = os.path.join(REPO, "sharepoint2text")
+    for dp, dn, fn in sorted(os.walk(root)):
+        if os.sep + "tests" in dp:
+            continue
+        for f in sorted(fn):
+            if f.endswith(".py"):
+                p_ = os.path.join(dp, f)
+                h.update(p_.encode())
+                h.update(open(p_, "rb").read())
+    h.update(open(os.path.abspath(__file__), "rb").read())
+    return h.hexdigest()
+
+
+def cached_sweep():
+    """The sweep does not depend on the obligation asked about: one run per (library tree, replayer) version."""
+    import json
+    path = os.path.join(tempfile.gettempdir(), "c08_sweep_" + _tree_digest()[:24] + ".json")
+    try:
+        with open(path) as fh:
+            return json.load(fh)["result"]
+    except Exception:  # noqa
+        pass
+    r = sweep()
+    try:
+        with open(path + ".tmp", "w") as fh:
+            json.dump({"result": r}, fh, default=repr)
+        os.replace(path + ".tmp", path)
+    except Exception:  # noqa
+        pass
+    return r
+
+
 def find(req):
     import logging
     logging.disable(logging.CRITICAL)
@@ -770,11 +805,7 @@ def find(req):
         ok, inputs, obs = finding(req["known_finding"])
         return {"reproduced": bool(ok), "inputs": inputs, "observed": obs, "expected": EXPECT}
     ob = req.get("obligation", "")
-    if "patch_pypdf_fallback_aes" in ob or "pdf_extractor" in ob:
-        r = aes_patch_check() or embedded_pdfs()
-        if r is not None:
-            return r
-    r = sweep()
+    r = cached_sweep()
     if r is not None:
         return r
     for key, fid in OBLIGATION_TO_FINDING.items():
